@@ -86,11 +86,14 @@ def build_driver(area):
     pkg, out = "./cmd/" + area, "drv_" + area
     hdir, bdir = HARNESS, BUILD
     if os.path.realpath(REPO) != "/repo":
+        # one private copy per check process (several checks may run against the same scratch tree at once)
         tag = hashlib.sha1(os.path.realpath(REPO).encode()).hexdigest()[:8]
-        hdir = os.path.join(tempfile.gettempdir(), "verif-harness-" + tag)
+        hdir = os.path.join(tempfile.gettempdir(), "verif-harness-%s-%d" % (tag, os.getpid()))
         bdir = os.path.join(hdir, ".build")
-        shutil.rmtree(hdir, ignore_errors=True)
-        shutil.copytree(HARNESS, hdir, ignore=shutil.ignore_patterns("go.mod", "go.sum"))
+        if not os.path.isdir(hdir):
+            shutil.copytree(HARNESS, hdir, ignore=shutil.ignore_patterns("go.mod", "go.sum"))
+            import atexit
+            atexit.register(shutil.rmtree, hdir, True)
     os.makedirs(bdir, exist_ok=True)
     gosum = os.path.join(hdir, "go.sum")
     try:
